@@ -185,7 +185,8 @@ def _bad_op(rng, sh, k, corrupt_fn=None):
     kinds = ["dup_id", "dup_id_other", "other_version", "hdr_vn", "hdr_mixed", "malformed",
              "rename_used", "rm_unknown", "set_ref_field", "bad_tagname", "empty", "blank",
              "dup_link", "grp_clash", "grp_tag_conflict", "readd_connected", "bad_value",
-             "ref_clash", "ref_clash", "hdr_multi", "rename_malformed", "del_id", "placeholder_clash"]
+             "ref_clash", "ref_clash", "hdr_multi", "rename_malformed", "del_id", "placeholder_clash",
+             "invalid_then_rm"]
     kind = rng.choice(kinds)
     tags = gen_tags(rng, k)
     if kind == "ref_clash":
@@ -218,6 +219,14 @@ def _bad_op(rng, sh, k, corrupt_fn=None):
                                  "E\t%s\t%s+\t%s-\t0\t1\t0\t1\t*" % (x, y, y)])
         sh.note(first)
         return kind, [{"op": "add", "line": first, "as": "str"}, {"op": "add", "line": second, "as": rng.choice(["str", "obj"])}]
+    if kind == "invalid_then_rm" and ids:
+        # a line holds an invalid value (accepted below level 3); removing a line it refers to must still work
+        holders = [x for x in ids if sh.named[x] in ("O", "U", "E", "G", "P")]
+        if holders and segs:
+            hname = rng.choice(holders)
+            return kind, [{"op": "set_datatype", "id": hname, "tag": "zi", "dtype": rng.choice(["A", "i", "H"])},
+                          {"op": "set_tag", "id": hname, "tag": "zi", "value": rng.choice(["[1", "a b", "xyz"])},
+                          {"op": "rm", "id": rng.choice(segs + ids), "how": rng.choice(["rm", "disconnect"])}]
     if kind == "hdr_multi":
         t = rng.choice(["zm:i:%d", "zn:Z:v%d"])
         return kind, [{"op": "add", "line": "H\t" + t % 1, "as": "str"}, {"op": "add", "line": "H\t" + t % 2, "as": "str"},
@@ -304,7 +313,8 @@ def _bad_op(rng, sh, k, corrupt_fn=None):
 
 
 def _line_named(rng, sh, rt, nm, tags):
-    segs = sh.ids(["S"]) or ["q1"]
+    # (a line never mentions its own identifier)
+    segs = [x for x in sh.ids(["S"]) if x != nm] or ["q1"]
     s = lambda: rng.choice(segs)
     if sh.version == "gfa1":
         if rt == "S":
